@@ -237,6 +237,6 @@ def run(ctx: Ctx) -> None:
     ctx.rule('R14.2', 'task index injective in (job, core); result/progress file names depend on it', floor=4)
     ctx.rule('R14.3', 'bounded partial evaluation of the whole split over small configurations', floor=1)
     ctx.trust('glob order is the same on every node of one run (shared file system listing)')
+    _r143(ctx)
     _r141(ctx)
     _r142(ctx)
-    _r143(ctx)
